@@ -13,6 +13,7 @@ package main
 
 import (
 	"fmt"
+	"sort"
 	"strings"
 
 	"github.com/itchyny/gojq"
@@ -51,6 +52,30 @@ func main() {
 			add(p, in)
 		}
 	}
+	// bounded-exhaustive overlap schedules: every ordered triple of paths from a pool of
+	// overlapping paths (elements, paths below them, slices with every start, the root) × update
+	// bodies that duplicate / re-embed / drop by type, on three small inputs (thorough: all;
+	// quick: a third, chosen by the PRNG). These only feed the reduction-rewrite oracle and, one
+	// in eight, the model stream.
+	exh := map[string]bool{}
+	for _, sc := range overlapPools {
+		for _, a := range sc.pool {
+			for _, b := range sc.pool {
+				for _, c := range sc.pool {
+					for _, body := range sc.bodies {
+						if !ctx.Thorough && !r.Chance(1, 3) {
+							continue
+						}
+						src := "(" + a + ", " + b + ", " + c + ") |= (" + body + ")"
+						add(src, sc.in)
+						if !r.Chance(1, 8) {
+							exh[src] = true
+						}
+					}
+				}
+			}
+		}
+	}
 	n := ctx.N(5000, 100000)
 	for i := 0; i < n; i++ {
 		var in any
@@ -64,7 +89,7 @@ func main() {
 		p, tp := g.PathFor(t)
 		body, _ := jqgen.NewTyped(r, r.Range(0, 2)).Gen(tp)
 		var src string
-		switch r.Intn(18) {
+		switch r.Intn(23) {
 		case 0, 1:
 			src = "[path(" + p + ")]"
 		case 2, 3, 4:
@@ -81,6 +106,12 @@ func main() {
 			src = "try ((" + p + ") |= (" + body + ")) catch ."
 		case 10:
 			src = "reduce path(" + p + ") as $q (.; setpath($q; getpath($q) | " + common.Pick(r, []string{".", "[.]", "1"}) + "))"
+		case 18, 19, 20, 21, 22:
+			if q := overlapSchedule(r, in); q != "" {
+				src = q
+			} else {
+				src = "[paths]"
+			}
 		case 14, 15, 16:
 			// two activations of an update alive at once, each dropping some of its paths
 			// (the deleted-path lists of nested `|=` must not interfere)
@@ -125,6 +156,17 @@ func main() {
 	cache := map[string]*gojq.Code{}
 	asts := map[string]string{}
 	for _, c := range cases {
+		if exh[c.src] {
+			// oracle only: compiled here, not sent to the model
+			if _, ok := cache[c.src]; !ok {
+				if q, err := gojq.Parse(c.src); err == nil {
+					if cc, err := gojq.Compile(q); err == nil {
+						cache[c.src] = cc
+					}
+				}
+			}
+			continue
+		}
 		code, ok := cache[c.src]
 		if !ok {
 			if q, err := gojq.Parse(c.src); err == nil {
@@ -203,6 +245,204 @@ func main() {
 	c02oracle.Run(ctx)
 	_ = fmt.Sprint
 	ctx.Finish()
+}
+
+// concretePaths lists path expressions (as jq text) that exist in v, slices included.
+func concretePaths(v any, prefix string, depth int, out *[]string) {
+	if depth > 3 {
+		return
+	}
+	switch v := v.(type) {
+	case []any:
+		n := len(v)
+		for i, x := range v {
+			p := fmt.Sprintf("%s[%d]", prefix, i)
+			*out = append(*out, p)
+			concretePaths(x, p, depth+1, out)
+		}
+		for lo := 0; lo <= n && lo <= 3; lo++ {
+			*out = append(*out, fmt.Sprintf("%s[%d:]", prefix, lo))
+			for hi := lo; hi <= n && hi <= lo+2; hi++ {
+				*out = append(*out, fmt.Sprintf("%s[%d:%d]", prefix, lo, hi))
+			}
+		}
+		if n > 0 {
+			*out = append(*out, prefix+"[-1]", prefix+"[-1:]", prefix+"[:-1]")
+		}
+	case map[string]any:
+		for k, x := range v {
+			ok := k != ""
+			for _, c := range k {
+				ok = ok && (c >= 'a' && c <= 'z')
+			}
+			p := prefix + "." + k
+			if !ok {
+				p = fmt.Sprintf("%s[%q]", prefix, k)
+			}
+			*out = append(*out, p)
+			concretePaths(x, p, depth+1, out)
+		}
+	}
+}
+
+// overlapSchedule: an update over 2–5 concrete, mostly overlapping paths of `in` (ancestors,
+// descendants, slices with every start, the same path twice) in random order, with an update
+// body that decides by the type of what it is handed and re-embeds / duplicates / drops it.
+func overlapSchedule(r *common.Rand, in any) string {
+	var ps []string
+	concretePaths(in, "", 0, &ps)
+	if len(ps) == 0 {
+		return ""
+	}
+	sort.Strings(ps)
+	k := r.Range(2, 5)
+	var sel []string
+	anchor := common.Pick(r, ps)
+	if es := elementSites(in, "", 0); len(es) > 0 && r.Chance(2, 3) {
+		// role-based: an element E of an array (a container itself), writes below it, the
+		// element, slices of its parent array that cover it (every start), the parent
+		e := common.Pick(r, es)
+		roles := func() string {
+			switch r.Intn(7) {
+			case 0, 1:
+				return common.Pick(r, e.below)
+			case 2, 3:
+				lo := r.Range(0, e.idx)
+				if r.Bool() {
+					lo = e.idx
+				}
+				hi := r.Range(e.idx+1, e.n)
+				if r.Chance(1, 3) {
+					return fmt.Sprintf("%s[%d:]", e.parent, lo)
+				}
+				return fmt.Sprintf("%s[%d:%d]", e.parent, lo, hi)
+			case 4:
+				return fmt.Sprintf("%s[%d]", e.parent, e.idx)
+			case 5:
+				if e.parent == "" {
+					return "."
+				}
+				return e.parent
+			default:
+				return common.Pick(r, ps)
+			}
+		}
+		for i := 0; i < k+1; i++ {
+			sel = append(sel, roles())
+		}
+		k = 0
+	}
+	for i := 0; i < k; i++ {
+		p := common.Pick(r, ps)
+		// bias to paths related to the anchor: same array/object neighbourhood
+		for try := 0; try < 6 && !related(anchor, p); try++ {
+			p = common.Pick(r, ps)
+		}
+		if r.Chance(1, 5) {
+			p = anchor
+		}
+		sel = append(sel, p)
+	}
+	for i := range sel {
+		if sel[i] == "" {
+			sel[i] = "."
+		} else if sel[i][0] == '[' {
+			sel[i] = "." + sel[i]
+		}
+	}
+	arr := common.Pick(r, []string{"[.[0], .[0]]", "[.[0], .[0]]", "[.[], .[]]", "[.[]?, .[0]]", ". + .", "[.]", ".[1:]", "map(.)", "reverse", "[.[-1], .[0]]", ".", "[.[0]]", "[{w: .[0]}, .[0]]", "empty", "[.[0], .[0], .[0]]"})
+	obj := common.Pick(r, []string{"{x: ., y: .}", ". + {n: .}", ".", "{a: .a, b: .a}", "[., .]", "map_values([.])", "empty", ". + {a: [.a, .a]}", "{a: .}"})
+	sc := common.Pick(r, []string{". + 1", "[.]", "{v: .}", ".", "[., .]", "empty", "null", "(. // 0) + 1", "tostring"})
+	body := "if type == \"array\" then " + arr + " elif type == \"object\" then " + obj + " else " + sc + " end"
+	if r.Chance(1, 4) {
+		body = "(" + body + ")?"
+	}
+	lhs := "(" + strings.Join(sel, ", ") + ")"
+	switch r.Intn(8) {
+	case 0:
+		return "try (" + lhs + " |= (" + body + ")) catch \"E\""
+	case 1:
+		return lhs + " = (" + common.Pick(r, []string{"[1]", "{a: 1}", ".", ".[0]?", "[.]", "null"}) + ")"
+	case 2:
+		return "del" + lhs
+	case 3:
+		return "[" + lhs + " |= (" + body + "), .]"
+	default:
+		return lhs + " |= (" + body + ")"
+	}
+}
+
+var overlapPools = []struct {
+	in     any
+	pool   []string
+	bodies []string
+}{
+	{[]any{[]any{0}, []any{1}, []any{2}}, []string{".[0]", ".[1]", ".[2]", ".[1][0]", ".[2][0]", ".[0:]", ".[1:]", ".[2:]", ".[0:2]", ".[1:2]", ".[1:3]", "."},
+		[]string{"if type == \"array\" then [.[0], .[0]] else . + 10 end", "if type == \"array\" then . + . else [.] end", "if type == \"array\" then [.] else {v: .} end", "if type == \"array\" then .[1:] else empty end", "[., .]", "if type == \"number\" then . + 1 else map(.) end"}},
+	{[]any{0, map[string]any{"a": 1}, map[string]any{"a": 2}}, []string{".[0]", ".[1]", ".[2]", ".[1].a", ".[2].a", ".[0:]", ".[1:]", ".[2:]", ".[0:2]", ".[1:2]", ".[1:3]", "."},
+		[]string{"if type == \"array\" then [.[0], .[0]] elif type == \"object\" then . else . + 10 end", "if type == \"array\" then . + . elif type == \"object\" then {a: ., b: .} else [.] end", "if type == \"object\" then . + {n: .} else . end", "if type == \"array\" then [.[-1], .[0]] elif type == \"object\" then empty else . + 1 end", "[., .]", "if type == \"number\" then . + 1 else . end"}},
+	{map[string]any{"a": []any{map[string]any{"b": []any{1}}, map[string]any{"b": []any{2}}}}, []string{".a", ".a[0]", ".a[1]", ".a[1].b", ".a[1].b[0]", ".a[0].b", ".a[0:]", ".a[1:]", ".a[0:1]", ".a[1:2]", ".", ".a[1].b[0:]"},
+		[]string{"if type == \"array\" then [.[0], .[0]] elif type == \"object\" then . else . + 10 end", "if type == \"array\" then . + . elif type == \"object\" then {b: .b, c: .b} else [.] end", "if type == \"object\" then {b: [.]} else . end", "if type == \"array\" then .[1:] elif type == \"object\" then empty else . + 1 end", "[., .]", "if type == \"number\" then . + 1 else . end"}},
+}
+
+type elemSite struct {
+	parent string   // path text of the array
+	idx, n int      // element index, array length
+	below  []string // paths strictly below the element
+}
+
+// elementSites: array elements that are themselves non-empty containers.
+func elementSites(v any, prefix string, depth int) []elemSite {
+	var out []elemSite
+	if depth > 3 {
+		return nil
+	}
+	switch v := v.(type) {
+	case []any:
+		for i, x := range v {
+			p := fmt.Sprintf("%s[%d]", prefix, i)
+			var below []string
+			concretePaths(x, p, depth+1, &below)
+			if len(below) > 0 {
+				sort.Strings(below)
+				out = append(out, elemSite{prefix, i, len(v), below})
+			}
+			out = append(out, elementSites(x, p, depth+1)...)
+		}
+	case map[string]any:
+		ks := make([]string, 0, len(v))
+		for k := range v {
+			ks = append(ks, k)
+		}
+		sort.Strings(ks)
+		for _, k := range ks {
+			ok := k != ""
+			for _, c := range k {
+				ok = ok && (c >= 'a' && c <= 'z')
+			}
+			p := prefix + "." + k
+			if !ok {
+				p = fmt.Sprintf("%s[%q]", prefix, k)
+			}
+			out = append(out, elementSites(v[k], p, depth+1)...)
+		}
+	}
+	return out
+}
+
+// related: one path is a prefix of the other, or both go through the same container.
+func related(a, b string) bool {
+	if strings.HasPrefix(a, b) || strings.HasPrefix(b, a) {
+		return true
+	}
+	cut := func(s string) string {
+		i := strings.LastIndexAny(s, ".[")
+		if i <= 0 {
+			return ""
+		}
+		return s[:i]
+	}
+	return cut(a) == cut(b) || strings.HasPrefix(a, cut(b)) && cut(b) != "" || strings.HasPrefix(b, cut(a)) && cut(a) != ""
 }
 
 // looseOutcome: outputs and termination; the text of a built-in error message is not compared
